@@ -122,5 +122,12 @@ def objective_ctor_targets():
             Target('linear_fun_ctor', [lfun, lacc()], H), Target('scale_fun_ctor', [sfun, gacc()], H), Target('bias_fun_ctor', [bfun, gacc()], H), Target('grads_fun_ctor', [gfun], H)]
 
 
-def targets():
-    return iterator_ctor_targets() + objective_ctor_targets()
+# quick tier: one target per family, chosen so that the callees of the others are INLINED in them (flatten_iter_ctor runs the real
+# targets_iterator_t / base_dataset_iterator_t constructors and base / dataset concurrency(); linear_fun_ctor and scale_fun_ctor run the
+# real linear / gboost accumulator_t constructors); the rest (the callees on their own, bias / grads objectives) is thorough
+QUICK = ('flatten_iter_ctor', 'select_iter_ctor', 'linear_fun_ctor', 'scale_fun_ctor')
+
+
+def targets(tier='thorough'):
+    ts = iterator_ctor_targets() + objective_ctor_targets()
+    return [t for t in ts if tier != 'quick' or t.name in QUICK]
